@@ -271,6 +271,9 @@ func c03Flags(c *Ctx, batch int) {
 		}
 		rec := spg.CharRecipe{Allow: spg.CTFlag(triple & 31), Require: spg.CTFlag(triple >> 5 & 31), Exclude: spg.CTFlag(triple >> 10 & 31)}
 		rec.Length = c.R.Range(1, 24)
+		if c.R.Chance(1, 16) {
+			rec.Length = c.R.Range(100, 700) // long passwords
+		}
 		// custom-string pattern
 		switch c.R.Intn(6) {
 		case 0:
